@@ -87,6 +87,30 @@ def run(tier, seed, work, replay):
     depth = 18 if tier == "quick" else 25
     traces = happy_traces() + attacks + simulate(work, "Gen_KMSession_f1.cfg", n, depth, seed, ["vip", "totp", "u2f", "cli"]) \
         + simulate(work, "Gen_KMSession_f2.cfg", n // 2, depth, seed + 1, ["botp", "vip", "cli"])
+    # refinement below the specification's grain: a certificate credential is either a keymaster user certificate or an
+    # IP-restricted (role requesting) certificate of the same principal presented from inside its netblock; the
+    # specification treats both as "the certificate's user is the actor".  Every behaviour with a certificate step is
+    # run a second time with the second kind.
+    nip = 0
+    import copy
+    extra = []
+    for ti, t in enumerate(traces):
+        has = False
+        for si, st in enumerate(t["steps"]):
+            c = st["args"].get("cred") if isinstance(st.get("args"), dict) else None
+            if c and c.get("cert", "none") != "none":
+                has = True
+        if has:
+            t2 = copy.deepcopy(t)
+            t2["origin"] = t["origin"] + "+ipcert"
+            for st in t2["steps"]:
+                c = st["args"].get("cred") if isinstance(st.get("args"), dict) else None
+                if c and c.get("cert", "none") != "none":
+                    c["certkind"] = "ip"
+                    nip += 1
+            extra.append(t2)
+    traces = traces + extra
+    cov["steps_with_ip_restricted_certificate"] = nip
     E.log("%d behaviours (%d attack traces from negative controls)" % (len(traces), len(attacks)))
     cpath = work.path("cases.ndjson")
     E.write_ndjson(cpath, traces)
